@@ -231,6 +231,10 @@ pub trait World: 'static {
     fn sweep_some(indices: &[u64]) -> Vec<(u64, Self::Case)> {
         indices.iter().filter_map(|i| Self::sweep_case(*i).map(|c| (*i, c))).collect()
     }
+    /// cases that cost seconds each under the interpreter (skipped by the quick Miri tier)
+    fn case_is_heavy(_case: &Self::Case) -> bool {
+        false
+    }
     /// names of the sweep cells (site / size / callback index), for the evidence file
     fn sweep_names() -> Vec<String> {
         Vec::new()
